@@ -726,7 +726,7 @@ def rule_pipeline(repo):
     else:
         r.bad(gm, 'GenDAGPass.__call__', cons, "the simulation pass pipeline no longer re-checks the design before "
               "building the DAG (designs mutated after elaboration are not checked)", gf.lineno)
-    r.require_floor(30)
+    r.require_floor(36)
     return r
 
 
@@ -1350,7 +1350,7 @@ def rule_porttable(repo):
                           f"{'accept' if want is None else want} (hierarchy: T > A,B; A > A1,A2; A1 > A11; B > B1)", chain.lineno)
                 else:
                     r.ok(m, fq, cons)
-    r.require_floor(60)
+    r.require_floor(67)
     return r
 
 
@@ -1600,61 +1600,112 @@ def rule_nowriter(repo):
 
 # ---------------------------------------------------------------------------
 # R-C09-loop
+_GRAPHS = [      # (name, undirected edges) -- small nets; nodes are opaque tokens
+    ('single edge', [('w0', 'w1')]),
+    ('path of 3', [('w0', 'w1'), ('w1', 'w2')]),
+    ('star with 3 leaves', [('c', 'l0'), ('c', 'l1'), ('c', 'l2')]),
+    ('ring of 3', [('w0', 'w1'), ('w1', 'w2'), ('w2', 'w0')]),
+    ('ring of 4', [('w0', 'w1'), ('w1', 'w2'), ('w2', 'w3'), ('w3', 'w0')]),
+    ('ring of 3 with a tail', [('w0', 'w1'), ('w1', 'w2'), ('w2', 'w0'), ('w2', 't')]),
+    ('fan-out whose two leaves are tied', [('r', 'c'), ('c', 'l0'), ('c', 'l1'), ('l0', 'l1')]),
+    ('path and ring side by side', [('p0', 'p1'), ('w0', 'w1'), ('w1', 'w2'), ('w2', 'w0')]),
+    ('two paths side by side', [('p0', 'p1'), ('q0', 'q1'), ('q1', 'q2')]),
+]
+
+
+def _graph_facts(edges):
+    nodes = sorted({n for e in edges for n in e})
+    adj = {n: [] for n in nodes}
+    for a2, b2 in edges:
+        adj[a2].append(b2)
+        adj[b2].append(a2)
+    comp, seen = [], set()
+    for n in nodes:
+        if n in seen:
+            continue
+        c, todo = set(), [n]
+        while todo:
+            x = todo.pop()
+            if x in c:
+                continue
+            c.add(x)
+            todo.extend(adj[x])
+        seen |= c
+        comp.append(c)
+    # an undirected simple graph has a cycle iff some component has at least as many edges as nodes
+    cyclic = any(sum(1 for a2, b2 in edges if a2 in c) >= len(c) for c in comp)
+    return nodes, adj, comp, cyclic
+
+
+def _floodfill_outcomes(f, edges, evals):
+    """run the flood fill on every start order and every neighbour iteration order -> set of outcomes"""
+    import itertools
+    from sa.listwalk import ListWalk, Raised as LWRaised
+
+    class W(ListWalk):
+        def ev(self, e):
+            if isinstance(e, ast.Dict):
+                return {self.ev(k): self.ev(v) for k, v in zip(e.keys, e.values)}
+            if isinstance(e, ast.Call) and isinstance(e.func, ast.Name) and e.func.id in ('repr', 'str') and len(e.args) == 1:
+                return 'name:' + str(self.ev(e.args[0]))
+            return ListWalk.ev(self, e)
+    nodes, adj, comp, cyclic = _graph_facts(edges)
+    outs = set()
+    orders = [list(itertools.permutations(adj[n])) for n in nodes]
+    for start in nodes:
+        sig = [start] + [n for n in nodes if n != start]
+        for combo in itertools.product(*orders):
+            A = {n: list(o) for n, o in zip(nodes, combo)}
+            w = W(leaf_classes=(), budget=4000)
+            evals[0] += 1
+            try:
+                ret = w.invoke(f, [list(sig), A])
+                nets = sorted(tuple(sorted(x)) for x in ret) if isinstance(ret, list) else None
+                outs.add(('nets', tuple(nets) if nets is not None else None, start))
+            except LWRaised as e:
+                outs.add(('raise', e.name, start))
+            except (KeyError, IndexError, TypeError, AttributeError) as e:
+                outs.add(('crash', type(e).__name__, start))
+            except AnalysisError as e:
+                if 'does not terminate' not in str(e):
+                    raise
+                outs.add(('crash', 'an endless loop', start))
+    return outs, comp, cyclic
+
+
 def rule_loop(repo):
-    r = RuleResult('R-C09-loop', "_floodfill_nets rejects a connection loop: reaching an already visited signal that is not "
-                                 "the predecessor raises InvalidConnectionError; predecessors are recorded on every push")
+    r = RuleResult('R-C09-loop', "_floodfill_nets, evaluated on small nets for every start signal and every neighbour order, "
+                                 "reports a connection loop iff the undirected net has a cycle and otherwise returns every "
+                                 "connected component (>= 2 signals) exactly once")
     m, f = _func_of(repo, L3, 'ComponentLevel3._floodfill_nets')
     fq = 'ComponentLevel3._floodfill_nets'
-    rs = [n for n in walk_no_nested(f) if _is_raise_of(n, 'InvalidConnectionError')]
-    if not rs:
-        r.bad(m, fq, 'raise InvalidConnectionError', "connection loops are no longer rejected", f.lineno)
-    for x in rs:
-        lp = enclosing(x, (ast.For,))
-        if lp is None or not isinstance(lp.iter, ast.Subscript) or not isinstance(lp.target, ast.Name):
-            raise AnalysisError(f"{fq}: loop-detection raise is not inside the neighbour loop")
-        atoms = [a for a in _guard_atoms_in_loop(x)]
-        v, u = lp.target.id, norm(lp.iter.slice)
-        visited = pred_ok = False
-        extra = []
-        predmap = None
-        for t, pol in atoms:
-            if isinstance(t, ast.Compare) and len(t.ops) == 1 and isinstance(t.ops[0], (ast.In, ast.NotIn)) and norm(t.left) == v:
-                if (isinstance(t.ops[0], ast.In)) == pol:
-                    visited = norm(t.comparators[0])
-                else:
-                    extra.append(norm(t))
-            elif isinstance(t, ast.Compare) and len(t.ops) == 1 and isinstance(t.ops[0], (ast.IsNot, ast.NotEq, ast.Is, ast.Eq)):
-                sides = [t.left, t.comparators[0]]
-                sub = [s for s in sides if isinstance(s, ast.Subscript) and norm(s.slice) == u]
-                oth = [s for s in sides if norm(s) == v]
-                if len(sub) == 1:
-                    predmap = norm(sub[0].value)
-                if len(sub) == 1 and len(oth) == 1 and (isinstance(t.ops[0], (ast.IsNot, ast.NotEq))) == pol:
-                    pred_ok = True
-                else:
-                    extra.append(norm(t))
+    if len(f.args.args) != 2:
+        raise AnalysisError(f"{fq}: signature changed")
+    evals = [0]
+    for gname, edges in _GRAPHS:
+        outs, comp, cyclic = _floodfill_outcomes(f, edges, evals)
+        want_nets = tuple(sorted(tuple(sorted(c)) for c in comp if len(c) > 1))
+        wrong = None
+        for kind, val, start in sorted(outs, key=repr):
+            if cyclic:
+                if not (kind == 'raise' and val == 'InvalidConnectionError'):
+                    wrong = wrong or (f"started at {start} the connection loop is "
+                                      f"{'not reported (nets ' + str(val) + ' accepted)' if kind == 'nets' else 'answered with ' + str(val)}: "
+                                      f"a combinational ring of connections elaborates silently")
             else:
-                extra.append(norm(t))
-        cons = f"loop detected: {v} visited and {v} is not pred[{u}]"
-        if visited and pred_ok and not extra:
-            r.ok(m, fq, cons)
-        else:
-            r.bad(m, fq, cons, f"the loop test is not `neighbour already visited and not the predecessor` "
-                  f"(extra/wrong conditions: {extra}): connection loops are missed or trees rejected", x.lineno)
-        if predmap:
-            pushes = [c for c in walk_no_nested(lp) if isinstance(c, ast.Call) and isinstance(c.func, ast.Attribute)
-                      and c.func.attr in ('append', 'add', 'appendleft') and [norm(a) for a in c.args] == [v]
-                      and not norm(c.func.value) == visited]
-            okp = bool(pushes)
-            for c in pushes:
-                blk = parent(stmt_of(c))
-                lst = blk.body if stmt_of(c) in blk.body else blk.orelse
-                if not any(isinstance(s, ast.Assign) and norm(s.targets[0]) == f"{predmap}[{v}]" and norm(s.value) == u for s in lst):
-                    okp = False
-            cons = f"{predmap}[{v}] = {u} on every push"
-            (r.ok(m, fq, cons) if okp else
-             r.bad(m, fq, cons, "a pushed neighbour does not record its predecessor: the loop test compares against a stale "
-                   "or missing predecessor", lp.lineno))
+                if kind != 'nets':
+                    wrong = wrong or f"started at {start} the loop-free net is rejected with {val}"
+                elif val != want_nets:
+                    wrong = wrong or (f"started at {start} the nets are {val}, expected {want_nets}: a connected signal is "
+                                      f"missing from its net (no driver / no multi-driver check for it)")
+        cons = f"{gname}: {'connection loop reported' if cyclic else 'nets = connected components'}"
+        (r.bad(m, fq, cons, f"on the net {edges}: " + wrong, f.lineno) if wrong else r.ok(m, fq, cons))
+    # self-connection: observation only (KeyError today; found by reading, not part of the verdict)
+    o2, _, _ = _floodfill_outcomes(f, [('w0', 'w0'), ('w0', 'w1')], evals)
+    odd = sorted({(k, v) for k, v, _ in o2 if not (k == 'raise' and v == 'InvalidConnectionError')})
+    if odd:
+        r.observations.append(f"self-connection connect(x, x) is answered with {odd} instead of InvalidConnectionError")
+    r.evaluations += evals[0]
     # _resolve_value_connections uses it on all signals / all adjacency
     m3, g = _func_of(repo, L3, 'ComponentLevel3._resolve_value_connections')
     calls = [c for c in walk_no_nested(g) if isinstance(c, ast.Call) and isinstance(c.func, ast.Attribute)
@@ -1666,7 +1717,7 @@ def rule_loop(repo):
     else:
         r.bad(m3, 'ComponentLevel3._resolve_value_connections', cons, "nets are not computed from all signals and the "
               "global adjacency", g.lineno)
-    r.require_floor(3)
+    r.require_floor(10)
     return r
 
 
@@ -1848,7 +1899,7 @@ def rule_raise_resolves(repo):
     if kinds != ['bad', 'ok', 'bad'] or 'InvalidPlaceholderError' not in res[0][1] or '`blk`' not in res[0][1] \
             or 'TypeError' not in res[2][1]:
         raise AnalysisError(f"R-C09-raise-resolves: embedded probe not judged as expected: {res}")
-    r.require_floor(40)
+    r.require_floor(89)
     return r
 
 
@@ -2075,6 +2126,11 @@ MUTANTS = [
     _m('headless-not-requeued', L3, "          new_headless.append( net )\n", "", 'R-C09-nowriter'),
     _m('nowriter-not-raised', L3, "    if headless:\n      raise NoWriterError( headless )", "    if headless:\n      pass", 'R-C09-nowriter'),
     # --- R-C09-loop
+    _m('loop-back-edge-to-root-ignored', L3, "            elif v is not pred[u]:", "            elif v in pred and v is not pred[u]:", 'R-C09-loop'),
+    _m('floodfill-neighbour-not-queued', L3, "              pred[v] = u\n              Q.append( v )", "              pred[v] = u", 'R-C09-loop'),
+    _m('floodfill-two-signal-nets-dropped', L3, "        if len(net) == 1:\n          continue", "        if len(net) <= 2:\n          continue", 'R-C09-loop'),
+    _m('floodfill-visited-never-set', L3, "          visited.add( u )\n          net.add( u )", "          net.add( u )", 'R-C09-loop'),
+    _m('floodfill-pred-is-root', L3, "              pred[v] = u\n", "              pred[v] = obj\n", 'R-C09-loop'),
     _m('loop-test-inverted', L3, "            elif v is not pred[u]:", "            elif v is pred[u]:", 'R-C09-loop'),
     _m('pred-not-recorded', L3, "              pred[v] = u\n", "", 'R-C09-loop'),
     _m('floodfill-local-adjacency', L3, "s._floodfill_nets( s._dsl.all_signals, s._dsl.all_adjacency )", "s._floodfill_nets( s._dsl.all_signals, s._dsl.adjacency )", 'R-C09-loop'),
@@ -2123,6 +2179,9 @@ EQUIV = [
        "    headless = []\n    for writer, signals in nets:\n      if writer is None:\n        headless.append( signals )\n"),
     _m('nowriter-return-loop-form', L3, "    return headed + [ (None, x) for x in headless ]", "    for x in headless:\n      headed.append( (None, x) )\n    return headed"),
     _m('nowriter-requeue-flipped', L3, "        if not has_writer:\n          new_headless.append( net )\n          continue\n", "        if has_writer:\n          pass\n        else:\n          new_headless.append( net )\n          continue\n"),
+    _m('loop-test-ne-for-identity', L3, "            elif v is not pred[u]:", "            elif v != pred[u]:"),
+    _m('floodfill-breadth-first', L3, "          u = Q.pop()\n          visited.add( u )", "          u = Q.pop(0)\n          visited.add( u )"),
+    _m('floodfill-root-pred-none', L3, "        Q   = [ obj ]\n", "        Q   = [ obj ]\n        pred[obj] = None\n"),
     _m('loop-early-continue', L3, "            if v not in visited:\n              pred[v] = u\n              Q.append( v )\n            elif v is not pred[u]:", "            if v not in visited:\n              pred[v] = u\n              Q.append( v )\n              continue\n            if v is not pred[u]:"),
     _m('loop-nested-else', L3, "            elif v is not pred[u]:\n              raise", "            else:\n             if v is not pred[u]:\n              raise"),
     _m('optable-skip-split', L2, "          if not is_write or not objs:\n            all_objs |= objs\n            continue\n", "          if not is_write:\n            all_objs |= objs\n            continue\n          if not objs:\n            continue\n"),
